@@ -137,6 +137,9 @@ def run(chk):
         t = g.template()
         ts.append(t)
         srcs.append(tg.Printer(rng.fork(("p", i)), vary=(i % 3 != 0)).template(t))
+    # the writer operations behind these artefacts (components, dynamic-slot content, every attribute family) replayed in the writer model (corr:js-writer)
+    from . import jswriter
+    jswriter.run(chk, [{"files": [["p", s]], "scripts": []} for s in srcs[::3]], cap=100 if quick else 1000)
     groups = render.compile_templates([[["p", s]] for s in srcs])
     items, idx = [], []
     for i, (t, g) in enumerate(zip(ts, groups)):
